@@ -46,6 +46,20 @@ func genField(r *vu.Rng) hpack.HeaderField {
 		f = respPseudo[r.Intn(len(respPseudo))]
 	case 2:
 		f.Name = oddNames[r.Intn(len(oddNames))]
+	case 4:
+		// a multi-byte UTF-8 rune (2, 3, 4 bytes; also Latin-1, overlong and surrogate forms) inside an
+		// otherwise valid name; many have a low byte that is a token character (U+0161 -> 'a'), so a
+		// rune-vs-byte confusion in the token check would let them through
+		runes := []string{"\u0161", "\u012d", "\u017a", "\u0130", "\u2461", "\u212a", "\uff41", "\U00010061", "\U0001f600",
+			"\u00e9", "\u00ff", "\u0100", "\u07ff", "\u0800", "\uffff", "\U0010ffff", "\xc1\xa1", "\xed\xa0\x80", "\xf8\x88\x80\x80\x80"}
+		ru := runes[r.Intn(len(runes))]
+		if r.Chance(1, 3) { // any rune whose low byte is a lower-case letter or digit
+			lo := "abcxyz019-_"[r.Intn(11)]
+			ru = string(rune(0x100*(1+r.Intn(0x10ff)) + int(lo)))
+		}
+		b := string(r.BytesFrom("abcxyz019-_", r.Intn(4)))
+		k := r.Intn(len(b) + 1)
+		f.Name = b[:k] + ru + b[k:]
 	case 3:
 		// every byte class boundary of the token table: a mostly valid name with one arbitrary byte
 		b := r.BytesFrom("abcxyz019-_", 1+r.Intn(4))
@@ -108,7 +122,7 @@ func genBlockFields(r *vu.Rng) []hpack.HeaderField {
 	}
 	for n := r.Intn(5); n > 0; n-- {
 		f := genField(r)
-		if r.Chance(9, 10) {
+		if r.Chance(5, 6) {
 			f.Name = goodNames[r.Intn(len(goodNames))]
 		}
 		fs = append(fs, f)
